@@ -57,7 +57,7 @@ func H_parent_chain() {
 		src += "mark(" + itoa(j) + "); $o = new K" + itoa(j) + "(); $o->m();\n"
 	}
 	for j := 0; j < n; j++ {
-		src += "mark(" + itoa(10+j) + "); K" + itoa(j) + "::sm();\n"
+		src += "mark(1" + itoa(j) + "); K" + itoa(j) + "::sm();\n"
 	}
 	for j := 1; j < n; j++ {
 		src += "emit(K" + itoa(j) + "::viaStatic()); emit(K" + itoa(j) + "::viaSelf());\n"
